@@ -188,7 +188,7 @@ Proof.
   assert (Hfr : ∀ s1, L1.elog s1 = L1.elog (l1 s) → L1.next_seq s1 = L1.next_seq (l1 s) →
                 bevents c s1 = bevents c (l1 s) ∧ L1.seq_of s1 (bid c) = L1.seq_of (l1 s) (bid c)).
   { intros s1 He Hs. split; [by apply bevents_same|by apply seq_of_same]. }
-  destruct m as [e sender to d amt data|e from to d amt|m2|k ex h hook|e p idx l2b lo hi v bh|e ch idx|e sender idx m lo hi v bh|e m1];
+  destruct m as [e sender to d amt data|e from to d amt|m2|k ex h hook|e p idx l2b lo hi v bh|e ch idx|e sender idx m lo hi v bh|e m1|e mo];
     cbn [sys_step].
   - case_bool_decide; [by left|]. unfold lift1, L1.step. cbn [L1.handle].
     destruct (L1.deposit (c1 c) e (l1 s) sender (bid c) to d amt data) as [[s1 r]|] eqn:Hd; [|by left].
@@ -213,6 +213,8 @@ Proof.
   - left. destruct (l1_admin m1) eqn:Ha; [|done]. unfold lift1, L1.step.
     destruct (L1.handle (c1 c) e (l1 s) m1) as [[s1 r]|] eqn:Hh; [|done].
     apply (l1_admin_frame _ _ _ _ _ _ Ha) in Hh as (_ & Hel & Hsq & _). cbn. by apply Hfr.
+  - left. pose proof (other_step_spec c s e mo) as Hsp; cbn zeta in Hsp; cbn [sys_step] in Hsp; destruct Hsp as (_ & _ & [->|(s1 & rr & Hok & Hh & -> & _)]); [done|].
+    destruct (other_handle_spec c e (l1 s) mo s1 rr Hok Hh) as (Hel & Hsq & _). done.
 Qed.
 
 Lemma step_evok c s m : evok c s → evok c (sys_step c s m).1.
@@ -244,7 +246,7 @@ Proof.
   assert (HL2 : ∀ m2, (L2.next_l1 (l2 s) ≤ L2.next_l1 (l2 (lift2 c s m2).1))%N).
   { intros m2. unfold lift2. pose proof (step_processed (c2 c) (l2 s) m2) as (k & Hk & _).
     destruct (L2.step (c2 c) (l2 s) m2) as [s2 [r|]]; cbn in *; lia. }
-  destruct m as [e sender to d amt data|e from to d amt|m2|k ex h hook|e p idx l2b lo hi v bh|e ch idx|e sender idx m lo hi v bh|e m1];
+  destruct m as [e sender to d amt data|e from to d amt|m2|k ex h hook|e p idx l2b lo hi v bh|e ch idx|e sender idx m lo hi v bh|e m1|e mo];
     cbn [sys_step].
   - case_bool_decide; [done|]. unfold lift1. destruct (L1.step _ _ _ _) as [s1 [r|]]; done.
   - case_bool_decide; [done|]. unfold lift1. destruct (L1.step _ _ _ _) as [s1 [r|]]; [|done]. case_bool_decide; done.
@@ -254,6 +256,7 @@ Proof.
   - unfold lift1. destruct (L1.step _ _ _ _) as [s1 [r|]]; done.
   - destruct (find_w (l2 s) m) as [w|]; [|done]. unfold lift1. destruct (L1.step _ _ _ _) as [s1 [r|]]; done.
   - destruct (l1_admin m1); [|done]. unfold lift1. destruct (L1.step _ _ _ _) as [s1 [r|]]; done.
+  - pose proof (other_step_spec c s e mo) as Hsp; cbn zeta in Hsp; cbn [sys_step] in Hsp; destruct Hsp as (-> & _). done.
 Qed.
 
 Lemma run_next_l1_ge c h : ∀ s, (L2.next_l1 (l2 s) ≤ L2.next_l1 (l2 (sys_run c s h)))%N.
